@@ -317,6 +317,7 @@ def run(prog, chk):
 
     # ---- R05.6 ---------------------------------------------------------------------------------
     _cli_rule(prog, chk, R)
+    _named_gates(prog, chk, R)
 
 
 def _is_entry_check(g, edge):
@@ -469,3 +470,25 @@ def _cli_rule(prog, chk, R):
         gs = [SX.show(ce) for ce, pol, _ in g.guards(c) if pol]
         chk.ob('R05.6', f, c.ln, ctor_cond in gs, 'multi-shot: the listing is read from the evaluator under the same condition `%s` that switched its logging on (guards: %s)' % (ctor_cond, gs[:2]),
                key='logged-evaluator:multi')
+
+
+def _named_gates(prog, chk, R):
+    """The listing names each operation by its mnemonic; replaying it gives the simulator's state only if the state change the
+    simulator performed under that name *is* the named gate.  That is property C01's content; its structural rules (matrices,
+    pair update, cx index algebra, loop nests) are evaluated here as one obligation of C05, so that a change which makes e.g.
+    `cx` skip part of the register — while still logging `cx q[c],q[t];` — is reported for the listing as well."""
+    from . import C01 as _C01
+    from .C03 import _Sub
+    sub = _Sub(chk)
+    sub.vacuous = []
+    try:
+        _C01.run(prog, sub)
+    except AnalysisBroken as e:
+        # C01's own check reports that it cannot read this form; the listing rules above stand on their own
+        chk.note('gate semantics (C01 rules) not evaluated for the listing: %s' % e)
+        return
+    rel = [o for o in sub.obs if o[0] in ('R01.1', 'R01.2', 'R01.3', 'R01.5')]
+    bad = [o for o in rel if not o[3]]
+    chk.ob('R05.2', R.sim['name'], 'qasm_simulator', not bad and len(rel) >= 10,
+           'the state change logged under each mnemonic is the named gate (C01 rules R01.1–R01.3, R01.5: %d obligations)%s' % (
+               len(rel), '' if not bad else '; first failing: %s [%s] %s' % (bad[0][0], bad[0][5], str(bad[0][4])[:160])), key='named-gate-semantics')
